@@ -9,7 +9,7 @@ from ..pyexpr import ExprTr, emit_def, translate_block
 
 T = "direct/data/transforms.py"
 CROP = ("DirectVerif.Model.Crop",)
-SHIFT = ("DirectVerif.Model.Shift",)
+SHIFT = ("DirectVerif.Model.Shift", "DirectVerif.Model.Fft")
 
 # =================================================================================================
 # C01 (shift arithmetic)
@@ -29,3 +29,213 @@ register("C01", [
     Kernel("roll_right_len", T, "roll_one_dim", ["shift", "n"], "(fun shift _ => shift)",
            assign_value({"shift": "shift", "data.size(dim)": "n"}, "right", arg=2), imports=SHIFT),
 ])
+
+
+# =================================================================================================
+# C01 structural facts: the call sequence of fft2 / ifft2, the per-element `dim` test, the order of
+# the two pieces in roll_one_dim's `torch.cat`.
+_NORMS = {"'ortho'": ".ortho", "None": ".backward", "'backward'": ".backward", "'forward'": ".forward"}
+
+
+def _is_docstring(st):
+    return isinstance(st, ast.Expr) and isinstance(st.value, ast.Constant) and isinstance(st.value.value, str)
+
+
+def _raise_name(st):
+    if not isinstance(st, ast.Raise) or st.exc is None:
+        return None
+    exc = st.exc.func if isinstance(st.exc, ast.Call) else st.exc
+    return ast.unparse(exc)
+
+
+def _data_call(st, allowed):
+    """`data = f(data, ...)` with f in allowed -> (f, call) else None"""
+    if (isinstance(st, ast.Assign) and len(st.targets) == 1 and ast.unparse(st.targets[0]) == "data"
+            and isinstance(st.value, ast.Call) and ast.unparse(st.value.func) in allowed
+            and st.value.args and ast.unparse(st.value.args[0]) == "data"):
+        return ast.unparse(st.value.func), st.value
+    return None
+
+
+def _kw(call, name):
+    for k in call.keywords:
+        if k.arg == name:
+            return k.value
+    return None
+
+
+def _shift_or_view(st):
+    r = _data_call(st, ("ifftshift", "fftshift", "view_as_real", "view_as_complex"))
+    if r is None:
+        raise Untranslatable(f"unexpected statement `{ast.unparse(st)}`")
+    f, call = r
+    if f in ("ifftshift", "fftshift"):
+        d = _kw(call, "dim") if len(call.args) == 1 else (call.args[1] if len(call.args) == 2 else None)
+        if d is None or ast.unparse(d) != "dim":
+            raise Untranslatable(f"`{f}` is not applied over `dim`: `{ast.unparse(st)}`")
+        return ".ishift" if f == "ifftshift" else ".fshift"
+    if len(call.args) != 1 or call.keywords:
+        raise Untranslatable(f"unexpected arguments in `{ast.unparse(st)}`")
+    return ".viewReal" if f == "view_as_real" else ".viewComplex"
+
+
+def _guarded_ops(body):
+    """statements under `if centered:` / `if complex_input:` (or at top level) -> list of ops"""
+    ops = []
+    i = 0
+    while i < len(body):
+        st = body[i]
+        if isinstance(st, ast.Expr) and isinstance(st.value, ast.Call) and ast.unparse(st.value.func) == "assert_complex":
+            txt = ast.unparse(st.value).replace(" ", "")
+            if txt != "assert_complex(data,complex_last=True)" or i + 1 >= len(body):
+                raise Untranslatable(f"unexpected `{ast.unparse(st)}`")
+            if _shift_or_view(body[i + 1]) != ".viewComplex":
+                raise Untranslatable("assert_complex not followed by view_as_complex")
+            ops.append(".viewComplex")
+            i += 2
+            continue
+        op = _shift_or_view(st)
+        if op == ".viewComplex":
+            raise Untranslatable("view_as_complex without the preceding assert_complex")
+        ops.append(op)
+        i += 1
+    return ops
+
+
+def _transform(st: ast.If):
+    if len(st.body) != 1 or len(st.orelse) != 1 or _raise_name(st.orelse[0]) != "ValueError":
+        raise Untranslatable("unexpected shape of the `verify_fft_dtype_possible` branch")
+    r = _data_call(st.body[0], ("torch.fft.fftn", "torch.fft.ifftn"))
+    if r is None:
+        raise Untranslatable(f"unexpected statement `{ast.unparse(st.body[0])}`")
+    f, call = r
+    d = _kw(call, "dim")
+    if d is None or ast.unparse(d) != "dim" or len(call.args) != 1:
+        raise Untranslatable("transform is not over `dim`")
+    nm = _kw(call, "norm")
+    if nm is None:
+        nt = nf = ".backward"
+    elif isinstance(nm, ast.IfExp) and ast.unparse(nm.test) == "normalized":
+        a, b = ast.unparse(nm.body), ast.unparse(nm.orelse)
+        if a not in _NORMS or b not in _NORMS:
+            raise Untranslatable(f"unknown norm `{ast.unparse(nm)}`")
+        nt, nf = _NORMS[a], _NORMS[b]
+    elif isinstance(nm, ast.IfExp) and ast.unparse(nm.test) == "not normalized":
+        a, b = ast.unparse(nm.body), ast.unparse(nm.orelse)
+        if a not in _NORMS or b not in _NORMS:
+            raise Untranslatable(f"unknown norm `{ast.unparse(nm)}`")
+        nt, nf = _NORMS[b], _NORMS[a]
+    elif ast.unparse(nm) in _NORMS:
+        nt = nf = _NORMS[ast.unparse(nm)]
+    else:
+        raise Untranslatable(f"unknown norm `{ast.unparse(nm)}`")
+    inv = "true" if f.endswith("ifftn") else "false"
+    return f"(.transform {inv} {nt} {nf})"
+
+
+def _plan_of(fn: ast.FunctionDef):
+    """-> (steps [(guard, op)], per-element dim test node)"""
+    steps = []
+    dim_test = None
+    for st in fn.body:
+        if _is_docstring(st):
+            continue
+        if isinstance(st, ast.Return):
+            if ast.unparse(st.value) != "data":
+                raise Untranslatable(f"unexpected `{ast.unparse(st)}`")
+            return steps, dim_test
+        if isinstance(st, ast.If):
+            test = ast.unparse(st.test)
+            if st.body and all(isinstance(b, ast.Raise) for b in st.body) and not st.orelse:
+                t = st.test
+                if not (_raise_name(st.body[0]) == "TypeError" and isinstance(t, ast.UnaryOp) and isinstance(t.op, ast.Not)
+                        and isinstance(t.operand, ast.Call) and ast.unparse(t.operand.func) == "all"
+                        and len(t.operand.args) == 1 and isinstance(t.operand.args[0], ast.GeneratorExp)):
+                    raise Untranslatable(f"unexpected guard `{test}`")
+                g = t.operand.args[0]
+                if (len(g.generators) != 1 or ast.unparse(g.generators[0].iter) != "dim" or g.generators[0].ifs
+                        or not isinstance(g.generators[0].target, ast.Name)):
+                    raise Untranslatable(f"unexpected guard `{test}`")
+                dim_test = (g.generators[0].target.id, g.elt)
+                steps.append((".always", ".checkDims"))
+            elif test in ("centered", "complex_input"):
+                if st.orelse:
+                    raise Untranslatable(f"`if {test}` has an else branch")
+                for op in _guarded_ops(st.body):
+                    steps.append((".centered" if test == "centered" else ".complexInput", op))
+            elif test.replace(" ", "") == "verify_fft_dtype_possible(data,dim)":
+                steps.append((".always", _transform(st)))
+            else:
+                raise Untranslatable(f"unexpected condition `{test}`")
+            continue
+        for op in _guarded_ops([st]):
+            steps.append((".always", op))
+    raise Untranslatable("no `return data`")
+
+
+def _c01_extra():
+    from ..gen import REPO, find_function, parse_file
+
+    out, status = [], {}
+    try:
+        tree = parse_file(REPO / T)
+    except Untranslatable as e:
+        tree = None
+        err = e
+    for name, model in (("fft2", "Fft.fft2Plan"), ("ifft2", "Fft.ifft2Plan")):
+        kp, kd = f"{name}_plan", f"{name}_dim_ok"
+        try:
+            if tree is None:
+                raise err
+            steps, dim_test = _plan_of(find_function(tree, name))
+            body = ", ".join(f"⟨{g}, {o}⟩" for g, o in steps)
+            out.append(f"/-- translated from `{T}`:`{name}` (ordered, flag-guarded call sequence) -/\n"
+                       f"def {kp} : List Fft.Step := [{body}]\n")
+            status[kp] = "translated"
+        except Untranslatable as e:
+            out.append(f"/-- SKIPPED ({e}) -/\ndef {kp} : List Fft.Step := {model}\n")
+            status[kp] = f"skipped: {e}"
+            dim_test = None
+        try:
+            if dim_test is None:
+                raise Untranslatable("dim guard not found")
+            var, elt = dim_test
+            tr = ExprTr({var: "d"}, {f"isinstance({var}, int)": "true"})
+            out.append(f"/-- translated from `{T}`:`{name}` (per-element test of `dim`) -/\n"
+                       + emit_def(kd, ["d"], [], tr.bool(elt), "Bool"))
+            status[kd] = "translated"
+        except Untranslatable as e:
+            out.append(f"/-- SKIPPED ({e}) -/\ndef {kd} (d : Int) : Bool := Fft.dimOk d\n")
+            status[kd] = f"skipped: {e}"
+    # order of the pieces in roll_one_dim's cat: 0 = left, 1 = right
+    try:
+        if tree is None:
+            raise err
+        fn = find_function(tree, "roll_one_dim")
+        ret = [s for s in fn.body if isinstance(s, ast.Return)]
+        last = ret[-1].value if ret else None
+        if not (isinstance(last, ast.Call) and ast.unparse(last.func) == "torch.cat" and last.args
+                and isinstance(last.args[0], (ast.Tuple, ast.List))):
+            raise Untranslatable("`return torch.cat((…), dim=dim)` not found")
+        d = _kw(last, "dim") if len(last.args) == 1 else last.args[1]
+        if d is None or ast.unparse(d) != "dim":
+            raise Untranslatable("cat is not along `dim`")
+        names = [ast.unparse(e) for e in last.args[0].elts]
+        if not all(n in ("left", "right") for n in names):
+            raise Untranslatable(f"unexpected cat operands {names}")
+        # the two pieces must be narrows of `data` along `dim`
+        for piece in ("left", "right"):
+            v = find_assign(fn, piece).value
+            if not (isinstance(v, ast.Call) and ast.unparse(v.func) == "data.narrow" and len(v.args) == 3
+                    and ast.unparse(v.args[0]) == "dim"):
+                raise Untranslatable(f"`{piece}` is not `data.narrow(dim, …)`")
+        out.append(f"/-- translated from `{T}`:`roll_one_dim` (operands of `torch.cat`: 0 = left, 1 = right) -/\n"
+                   f"def roll_cat_order : List Nat := [{', '.join('0' if n == 'left' else '1' for n in names)}]\n")
+        status["roll_cat_order"] = "translated"
+    except Untranslatable as e:
+        out.append(f"/-- SKIPPED ({e}) -/\ndef roll_cat_order : List Nat := [1, 0]\n")
+        status["roll_cat_order"] = f"skipped: {e}"
+    return "\n".join(out), status
+
+
+EXTRA["C01"] = _c01_extra
